@@ -236,6 +236,7 @@ func checkC11(c *an.Ctx) {
 
 	// C11.3
 	cfg := chainCfg(p)
+	cfg.ParamDepth = 3
 	if ct != nil {
 		envArg := argOf(r.compileCall, ct, "env")
 		okStart := false
